@@ -8,6 +8,7 @@ CONSTANTS
  MaxFaults = 3
  MaxSeeks = 1
  Conc = 2
+ StoreAnchor = TRUE
  RelNR = TRUE
  FixLeak = TRUE
  PrioAsc = TRUE
